@@ -55,7 +55,7 @@ _REQUIRED = (["kind:" + k for k in _KINDS]
              + ["multi-set-node", "dummy-root", "dummy-internal", "dummy-leaf", "arity-2", "arity-3", "unary-node",
                 "qn-none", "qn-one", "qn-two", "complex-state", "complex-with-real", "add:coeffs-differ", "bond-dim-1",
                 "partial-operator", "charged-operator", "child-permutation", "post:canonicalised", "from_mps",
-                "aux-space-partial-operator", "op:add", "op:scale", "op:apply", "op:canonicalise", "op:compress",
+                "aux-space-partial-operator", "one-node-tree", "op:add", "op:scale", "op:apply", "op:canonicalise", "op:compress",
                 "op:centre-walk", "op:norm", "op:expectation", "op:rdm-site", "op:rdm-dof", "op:entropy", "op:mutual-info",
                 "op:bond-entropy", "op:normalize", "op:copy"])
 
@@ -64,11 +64,12 @@ def plan(tier):
     base = {"case_time_limit": 240, "required_classes": _REQUIRED}
     if tier == "quick":
         base.update({"ncases": 208, "min_nontrivial": 120,
-                     "required_counters": {"oracle": 6000, "child_order": 1500, "label_checks": 500, "isometry_checks": 200}})
+                     "required_counters": {"oracle": 4500, "child_order": 1500, "label_checks": 1400, "isometry_checks": 700,
+                                           "partial_oracle": 100, "todense_checks": 400}})
     else:
-        base.update({"ncases": 3000, "min_nontrivial": 2000,
-                     "required_counters": {"oracle": 90000, "child_order": 25000, "label_checks": 8000,
-                                           "isometry_checks": 3000}})
+        base.update({"ncases": 6000, "min_nontrivial": 4000,
+                     "required_counters": {"oracle": 120000, "child_order": 50000, "label_checks": 38000,
+                                           "isometry_checks": 20000, "partial_oracle": 3000, "todense_checks": 12000}})
     return base
 
 
@@ -191,6 +192,14 @@ def choose_tree(ctx, gm):
     rng = ctx.rng
     qn_mode = gm.desc["qn_mode"]
     r = rng.random()
+    n_phys = sum(1 for b in gm.basis if not trees.is_dummy(b))
+    if n_phys <= 3 and len(gm.basis) <= 3 and rng.random() < 0.2:
+        # the smallest rooted tree: one node that carries every basis set (no virtual bond at all)
+        from renormalizer.tn.node import TreeNodeBasis
+        from renormalizer.tn.treebase import BasisTree
+        order = [int(i) for i in rng.permutation(len(gm.basis))]
+        tree = BasisTree(TreeNodeBasis([gm.basis[i] for i in order]))
+        return "random", tree, {"kind": "random", "options": {"one_node": True, "order": order}, "shape": trees.tree_shape(tree)}
     if r < 0.34:
         kind = "random"
     else:
@@ -371,7 +380,9 @@ def isometry(ctx, world, t, what):
     ctx.metric_max("isometry_defect", d)
     ok = ctx.check(d <= 1e-8, f"{what}|non-root-tensor-not-isometric", defect=d)
     rep = t.is_canonical()
-    ctx.check(bool(rep) == bool(d <= 1e-8) or d <= 1e-7, f"{what}|is_canonical-disagrees-with-raw-arrays", defect=d, reported=bool(rep))
+    # is_canonical uses np.allclose(atol=1e-8, rtol=1e-5): only clear-cut disagreements are judged
+    ctx.check(not ((not rep and d <= 1e-9) or (rep and d > 1e-4)), f"{what}|is_canonical-disagrees-with-raw-arrays", defect=d,
+              reported=bool(rep))
     return ok
 
 
@@ -492,6 +503,14 @@ def eval_target(ctx, world, a):
     return out[0], out[1], mode
 
 
+def tscale(a, psi):
+    """Magnitude scale of the tensors of a pool member (tensor level, coeff excluded): its own norm, or the norm scale
+    of the operands it was computed from when that is larger (a sum that cancels, an operator that nearly annihilates):
+    rounding errors of every contraction are relative to this scale, not to the norm of the result."""
+    c = abs(a.t.coeff)
+    return max(float(np.linalg.norm(psi)), (a.scale or 0.0) / c if c > 0 else 0.0, 1e-300)
+
+
 def unit_scaled(ctx, world, t, m, psi):
     """Entropies are defined for normalisable states; the library asserts on the un-normalised spectrum, so states far
     from unit norm are rescaled first (harness-side input conditioning).  Returns (primary, mirror, psi)."""
@@ -527,21 +546,23 @@ def obs_norm(ctx, world, a):
     t, m, gauge = eval_target(ctx, world, a)
     psi = world.tdense(t)
     nrm = float(np.linalg.norm(psi))
+    S = tscale(a, psi)
+    nscale = max(nrm, S * S / max(nrm, 1e-300) if nrm > 0 else S)     # norm = sqrt(<psi|psi>), <psi|psi> exact to ~eps * S^2
     ok, got = call(ctx, world, "ttns_norm", lambda: t.ttns_norm)
     if ok:
         ctx.count("oracle")
-        ctx.close(got, nrm, TOL, "ttns_norm|differs-from-dense-norm", scale=max(nrm, 1e-300), gauge=gauge)
+        ctx.close(got, nrm, TOL, "ttns_norm|differs-from-dense-norm", scale=nscale, gauge=gauge)
         ctx.check(isinstance(got, float), "ttns_norm|not-a-float")
     ok2, got2 = call(ctx, world, "norm", lambda: t.norm)
     if ok2:
         ctx.count("oracle")
         ctx.close(got2, abs(t.coeff) * nrm, TOL, "norm|differs-from-abs-coeff-times-dense-norm",
-                  scale=max(abs(t.coeff) * nrm, 1e-300), gauge=gauge)
+                  scale=max(abs(t.coeff) * nscale, 1e-300), gauge=gauge)
     if m is not None and ok:
         okm, gm_ = call(ctx, world, "ttns_norm", lambda: m.ttns_norm)
         if okm:
             ctx.count("child_order")
-            ctx.close(gm_, got, TOL, "child-order|ttns_norm-differs", scale=max(nrm, 1e-300))
+            ctx.close(gm_, got, TOL, "child-order|ttns_norm-differs", scale=nscale)
     compare(ctx, world, a, "ttns_norm|operand-changed")
 
 
@@ -554,7 +575,7 @@ def obs_expectation(ctx, world, a, ops):
     t, m, gauge = eval_target(ctx, world, a)
     psi = world.tdense(t)
     want = np.vdot(psi, o.ref @ psi)
-    scale = max(float(np.linalg.norm(psi)) ** 2 * o.norm, 1e-300)
+    scale = max(tscale(a, psi) ** 2 * o.norm, 1e-300)
     arg, argm, how = o.o, o.om, "ttno"
     if not o.partial and rng.random() < 0.25:
         # Op / OpSum arguments are converted with TTNO(self.basis, ...)
@@ -593,12 +614,17 @@ def obs_rdm_site(ctx, world, a, entropy):
     rng = ctx.rng
     t, m, gauge = eval_target(ctx, world, a)
     psi = world.tdense(t)
+    S = tscale(a, psi)
     if entropy:
+        if float(np.linalg.norm(psi)) < 1e-3 * S:
+            ctx.count("entropy-skipped-after-cancellation")
+            return
+        S = S if 0.1 <= float(np.linalg.norm(psi)) <= 10.0 else S / float(np.linalg.norm(psi))
         t, m, psi = unit_scaled(ctx, world, t, m, psi)
         if t is None:
             return
-    n2 = float(np.linalg.norm(psi)) ** 2
-    if n2 < 1e-12:
+    n2 = S ** 2
+    if float(np.linalg.norm(psi)) < 1e-150:
         return
     n = world.n_nodes
     tm = world.tmap
@@ -713,12 +739,17 @@ def obs_rdm_dof(ctx, world, a, mode):
     rng = ctx.rng
     t, m, gauge = eval_target(ctx, world, a)
     psi = world.tdense(t)
+    S = tscale(a, psi)
     if mode != "rdm":
+        if float(np.linalg.norm(psi)) < 1e-3 * S:
+            ctx.count("entropy-skipped-after-cancellation")
+            return
+        S = S if 0.1 <= float(np.linalg.norm(psi)) <= 10.0 else S / float(np.linalg.norm(psi))
         t, m, psi = unit_scaled(ctx, world, t, m, psi)
         if t is None:
             return
-    n2 = float(np.linalg.norm(psi)) ** 2
-    if n2 < 1e-12:
+    n2 = S ** 2
+    if float(np.linalg.norm(psi)) < 1e-150:
         return
     tm, ts = world.tmap, world.ts
     ref_sets = tm.ref
@@ -822,12 +853,15 @@ def obs_bond(ctx, world, a):
     rng = ctx.rng
     t, m, gauge = eval_target(ctx, world, a)
     psi = world.tdense(t)
+    S = tscale(a, psi)
+    if float(np.linalg.norm(psi)) < 1e-3 * S:
+        ctx.count("entropy-skipped-after-cancellation")
+        return
+    S = S if 0.1 <= float(np.linalg.norm(psi)) <= 10.0 else S / float(np.linalg.norm(psi))
     t, m, psi = unit_scaled(ctx, world, t, m, psi)
     if t is None:
         return
-    nrm = float(np.linalg.norm(psi))
-    if nrm < 1e-6:
-        return
+    nrm = S
     tm, ts = world.tmap, world.ts
     spectra = [ts.bond_spectrum_reference(psi, tm, i) for i in range(world.n_nodes)]
     if rng.random() < 0.5:
@@ -1125,6 +1159,8 @@ def _run_case(ctx, state):
                 if a.m is not None:
                     call(ctx, world, "scale", a.m.scale, val, inplace=True)
                 a.ref = a.ref * val
+                if a.scale:
+                    a.scale = a.scale * abs(val)
                 a.trace.append(f"scale!({val})")
                 compare(ctx, world, a, "scale")
                 labels(ctx, world, a, "scale")
